@@ -64,6 +64,10 @@ type c18Tool struct {
 	ErrID int    `json:"errId,omitempty"`
 	// implementation side only
 	Streamable bool `json:"streamable,omitempty"` // implements tool.StreamableTool instead of InvokableTool
+	// a streamable tool that produces its result lazily — three chunks over an unbuffered pipe,
+	// each sent only when the consumer reads — and looks at the context it was called with before
+	// every chunk: "stop" ends the stream silently when the context is done, "err" reports ctx.Err()
+	Lazy string `json:"lazy,omitempty"`
 }
 
 type c18Case struct {
@@ -422,8 +426,34 @@ func (t c18Streamable) StreamableRun(ctx context.Context, args string, opts ...t
 	if err != nil {
 		return nil, err
 	}
-	h := len(s) / 2
-	return schema.StreamReaderFromArray([]string{s[:h], s[h:]}), nil
+	return c18ToolStream(ctx, s, t.t.Lazy), nil
+}
+
+// c18ToolStream: the result s as a stream — two chunks from an array, or (lazy) three chunks
+// produced on demand by a goroutine that honours ctx between chunks.
+func c18ToolStream(ctx context.Context, s string, lazy string) *schema.StreamReader[string] {
+	if lazy == "" {
+		h := len(s) / 2
+		return schema.StreamReaderFromArray([]string{s[:h], s[h:]})
+	}
+	a, b := len(s)/3, 2*len(s)/3
+	parts := []string{s[:a], s[a:b], s[b:]}
+	sr, sw := schema.Pipe[string](0)
+	go func() {
+		defer sw.Close()
+		for _, p := range parts {
+			if err := ctx.Err(); err != nil {
+				if lazy == "err" {
+					sw.Send("", err)
+				}
+				return
+			}
+			if closed := sw.Send(p, nil); closed {
+				return
+			}
+		}
+	}()
+	return sr
 }
 
 // ---- building the agent ----
@@ -956,7 +986,7 @@ func c18Key(c *c18Case) string {
 	}
 	var tk []string
 	for _, t := range c.Tools {
-		tk = append(tk, t.Name+":"+t.Kind)
+		tk = append(tk, t.Name+":"+t.Kind+":"+t.Lazy)
 	}
 	return fmt.Sprintf("%s|%v|%v|%d|%s|%s|%d|%s", c18NamedShapes(c, shapes), tk, c.RD, c.MaxStep, c.Modifier, c.Checker, len(c.Orig), c18Host(c)+"|u="+c.Unknown)
 }
@@ -1367,6 +1397,9 @@ func c18Gen(r *vh.Rand) *c18Case {
 		case r.Chance(15):
 			t.Kind, t.Value = "const", []string{"", "v", "result"}[r.Intn(3)]
 		}
+		if t.Streamable && r.Bool() {
+			t.Lazy = []string{"stop", "err"}[r.Intn(2)]
+		}
 		c.Tools = append(c.Tools, t)
 		names = append(names, t.Name)
 	}
@@ -1536,6 +1569,7 @@ func c18Corpus() []*c18Case {
 	}
 	out = append(out, c18DeltaCorpus(base, answer)...)
 	out = append(out, c18UnknownCorpus(base, answer)...)
+	out = append(out, c18LazyCorpus(base, answer)...)
 	return out
 }
 
@@ -1677,6 +1711,75 @@ func c18UnknownCorpus(base func() *c18Case, answer c18Reply) []*c18Case {
 	return out
 }
 
+// c18LazySibling: "none" / "single-call" / "plain" / "return-directly": a message calls a lazy,
+// ctx-aware streamable tool next to at least one other call (and that tool is / is not the
+// return-directly one)
+func c18LazySibling(c *c18Case) string {
+	lazy := map[string]bool{}
+	for _, t := range c.Tools {
+		if t.Streamable && t.Lazy != "" {
+			lazy[t.Name] = true
+		}
+	}
+	rd := map[string]bool{}
+	for _, n := range c.RD {
+		rd[n] = true
+	}
+	out := "none"
+	for i := range c.Script {
+		calls := c18Assemble(&c.Script[i])
+		for _, cl := range calls {
+			if !lazy[cl.Name] {
+				continue
+			}
+			switch {
+			case len(calls) >= 2 && rd[cl.Name]:
+				return "return-directly"
+			case len(calls) >= 2:
+				out = "plain"
+			case out == "none":
+				out = "single-call"
+			}
+		}
+	}
+	return out
+}
+
+// c18LazyCorpus: one assistant message with 1-3 tool calls of which one or two go to a streamable
+// tool that produces its result lazily (three chunks over an unbuffered pipe) and looks at its
+// context before every chunk — {stops silently, reports ctx.Err()} x position of the lazy call
+// {alone, first, last, middle, two lazy calls} x {plain, the lazy tool is return-directly, a sibling
+// is return-directly} x host {agent, chain}; then the answer.
+func c18LazyCorpus(base func() *c18Case, answer c18Reply) []*c18Case {
+	var out []*c18Case
+	layouts := [][]string{{"feed"}, {"feed", "t1"}, {"t1", "feed"}, {"t1", "feed", "t2"}, {"feed", "feed2"}}
+	for _, lazy := range []string{"stop", "err"} {
+		for _, names := range layouts {
+			for _, rd := range []string{"", "feed", "t1"} {
+				for _, host := range []string{"", "chain"} {
+					if host != "" && rd == "t1" {
+						continue
+					}
+					c := base()
+					c.Host = host
+					c.Tools = append(c.Tools, c18Tool{Name: "feed", Kind: "echo", Streamable: true, Lazy: lazy},
+						c18Tool{Name: "feed2", Kind: "const", Value: "alpha-beta-gamma", Streamable: true, Lazy: lazy})
+					if rd != "" {
+						c.RD = []string{rd}
+					}
+					var calls []c18Call
+					for k, n := range names {
+						calls = append(calls, c18Call{ID: fmt.Sprintf("z%d", k), Name: n, Args: fmt.Sprintf("{\"q\":%d}", k)})
+					}
+					c.Script = []c18Reply{{Chunks: []c18Chunk{{Content: "", Calls: calls}}}, answer}
+					out = append(out, c)
+				}
+			}
+		}
+	}
+	return out
+}
+
 // ---- one case ----
 
 func c18Shape(c *c18Case) string {
@@ -1692,6 +1795,12 @@ func c18Shape(c *c18Case) string {
 	}
 	if c.Unknown != "" && c.Unknown != "none" {
 		rd += ":unknown-tools-handler=" + c.Unknown
+	}
+	for _, t := range c.Tools {
+		if t.Streamable && t.Lazy != "" {
+			rd += ":lazy-streamable-tool" // some tool streams its result lazily and honours its ctx
+			break
+		}
 	}
 	if c.Host != "" && c.Host != "agent" {
 		return fmt.Sprintf("checker=%s:%s:host=%s", c.Checker, rd, c.Host)
@@ -1785,6 +1894,7 @@ func c18Check(ctx *vh.Ctx, c *c18Case, raw json.RawMessage, topoModel map[bool]j
 	ctx.Res.Dist(fmt.Sprintf("metadata-only-head-before-toolcall=%v", metaHead))
 	ctx.Res.Dist("host=" + c18Host(c))
 	ctx.Res.Dist(fmt.Sprintf("unknown-tools-handler=%s:made-up-call-before-a-differently-named-call=%v", map[bool]string{true: "nil", false: c.Unknown}[c.Unknown == "" || c.Unknown == "none"], c18UnknownNotLast(c, c.Script)))
+	ctx.Res.Dist("lazy-ctx-aware-tool-among-sibling-calls=" + c18LazySibling(c))
 	ctx.Res.Dist(fmt.Sprintf("toolcall-deltas:fragmented=%v:interleaved-across-indexes=%v:with-unindexed-call=%v", fragmented, interleaved, mixed))
 	if model.Limit != nil && c18Host(c) != "agent" {
 		// does the script distinguish MaxStep from compose's default (nodes + 10)?
@@ -1866,7 +1976,7 @@ func c18Check(ctx *vh.Ctx, c *c18Case, raw json.RawMessage, topoModel map[bool]j
 }
 
 func runC18(ctx *vh.Ctx) error {
-	ctx.Res.Rule = "random ReAct scripts: 1-8 (hosted: up to 12) replies with 0-3 tool calls streamed in 1-9 chunks (40% of the tool-calling turns as deltas keyed by Index: head with id and name, arguments in 1-3 pieces, id / name now and then repeated, indexes ascending / descending / with gaps / permuted, one call now and then whole without Index, the deltas of the calls back to back / one per call per chunk / one per chunk round-robin / merged at random; empty leading/middle chunks, chunks carrying only provider metadata — Extra entries / ResponseMeta usage, finish reason / Name — in front of, between and on content and tool-call chunks, calls in the first non-empty chunk / spread / behind content), 1-4 tools (echo/const/fail, invokable/streamable, unknown names, duplicate and empty call ids), return-directly sets, ToolsConfig.UnknownToolsHandler nil (1.2% of the calls go to a made-up name: the run fails) / echoing the name it is given / constant / failing (29% of the cases; then 25% of the calls go to one of 4 made-up names, at any position of multi-call messages), MaxStep <0/0/1-30, MessageModifier off/system/tail, default or whole-stream checker; host = Agent.Generate/Stream, or the graph from Agent.ExportGraph() added with its options to a parent chain / parent graph run with Invoke/Stream; both modes on the real agent vs the Lean model (model inputs, node executions, result/error class), Generate vs Stream, graph topology via compile callback; a systematic corpus first (looping and long scripts x MaxStep below/at/above compose's default x host; one metadata-only head chunk per metadata kind; 2-3 parallel calls as deltas x arrangement x index order x checker / host / return-directly / repeated id / unindexed call; 114 messages with made-up tool names first / in the middle / last / twice / only x handler nil / echo / const / fail x whole / deltas x host); family shared-input (12% of the random cases + a corpus of 280): 1-3 runs with scripts of their own started from ONE message slice whose backing array has 0-8 spare cells behind its length, Generate / Stream mixed, one agent for all or one per run, every run parked at the end of each model call and tools round and released in a scripted order (then round-robin) so that exactly one run moves at a time; per run model inputs / node executions / result vs the Lean heap model (= the run alone), and the caller's backing array cell by cell; non-trivial = at least one tools round or the step limit was hit; distinct by (chunk shapes of every reply, tools, return-directly set, MaxStep, modifier, checker, #orig, host)"
+	ctx.Res.Rule = "random ReAct scripts: 1-8 (hosted: up to 12) replies with 0-3 tool calls streamed in 1-9 chunks (40% of the tool-calling turns as deltas keyed by Index: head with id and name, arguments in 1-3 pieces, id / name now and then repeated, indexes ascending / descending / with gaps / permuted, one call now and then whole without Index, the deltas of the calls back to back / one per call per chunk / one per chunk round-robin / merged at random; empty leading/middle chunks, chunks carrying only provider metadata — Extra entries / ResponseMeta usage, finish reason / Name — in front of, between and on content and tool-call chunks, calls in the first non-empty chunk / spread / behind content), 1-4 tools (echo/const/fail, invokable/streamable — half of the streamable ones produce their result lazily, three chunks over an unbuffered pipe, and look at their ctx before each chunk: stop silently / report ctx.Err(); a corpus of 50 multi-call messages with such tools, plain / return-directly / a sibling return-directly, unknown names, duplicate and empty call ids), return-directly sets, ToolsConfig.UnknownToolsHandler nil (1.2% of the calls go to a made-up name: the run fails) / echoing the name it is given / constant / failing (29% of the cases; then 25% of the calls go to one of 4 made-up names, at any position of multi-call messages), MaxStep <0/0/1-30, MessageModifier off/system/tail, default or whole-stream checker; host = Agent.Generate/Stream, or the graph from Agent.ExportGraph() added with its options to a parent chain / parent graph run with Invoke/Stream; both modes on the real agent vs the Lean model (model inputs, node executions, result/error class), Generate vs Stream, graph topology via compile callback; a systematic corpus first (looping and long scripts x MaxStep below/at/above compose's default x host; one metadata-only head chunk per metadata kind; 2-3 parallel calls as deltas x arrangement x index order x checker / host / return-directly / repeated id / unindexed call; 114 messages with made-up tool names first / in the middle / last / twice / only x handler nil / echo / const / fail x whole / deltas x host); family shared-input (12% of the random cases + a corpus of 280): 1-3 runs with scripts of their own started from ONE message slice whose backing array has 0-8 spare cells behind its length, Generate / Stream mixed, one agent for all or one per run, every run parked at the end of each model call and tools round and released in a scripted order (then round-robin) so that exactly one run moves at a time; per run model inputs / node executions / result vs the Lean heap model (= the run alone), and the caller's backing array cell by cell; non-trivial = at least one tools round or the step limit was hit; distinct by (chunk shapes of every reply, tools, return-directly set, MaxStep, modifier, checker, #orig, host)"
 	topoModel := map[bool]json.RawMessage{}
 	for _, rd := range []bool{false, true} {
 		raw, err := ctx.Oracle.Ask("C18", map[string]any{"kind": "topology", "rd": rd})
